@@ -15,7 +15,8 @@ ID = "C13"
 LEVEL = "exploration"
 RULE = ("random histories (10-60 steps) over a class hierarchy (Person > Employee > Manager, Org > Dept, Chief role) of "
         "{create, drop reference, gc, relate, query with a fresh query, build a query and evaluate it later, "
-        "create / drop 8-70 instances at once, re-evaluate an old query, forget all queries (the harness also empties krrood's process-wide query registries so "
+        "create / drop 8-70 instances at once, re-evaluate an old query, a rule query whose second branch (over another domain-less variable) is written after a "
+        "first evaluation compared with the same rule written in one go, forget all queries (the harness also empties krrood's process-wide query registries so "
         "that dropped instances can really die), SymbolGraph().clear() + re-create}.  Non-trivial = the history contains a drop+gc "
         "that reclaims an instance before a later query, or a clear; distinct = the operation-kind sequence (with the "
         "queried type)")
@@ -26,14 +27,15 @@ ANCHORS = ["update_cache", "SymbolGraph.add_node", "SymbolGraph.remove_node", "S
            "SymbolGraph.get_instances_of_type", "Symbol.__new__"]
 
 OPS = ["create", "create", "create", "drop", "drop", "gc", "relate", "q_new", "q_new", "q_build", "q_build_attr", "q_eval", "q_eval",
-       "clear", "forget", "forget"]
+       "clear", "forget", "forget", "q_rule", "q_rule_eval", "q_rule_eval"]
 
 
 def plan(tier):
     return {"cases": 2000 if tier == "quick" else 50000, "shards": 16, "case_timeout": 60, "shard_timeout": 3000,
             "min_nontrivial": 100,
             "min_counters": {"queries_checked": 5000, "instances_reclaimed": 1000,
-                             "clears": 100, "reevaluations": 500, "bulk_dropped": 2000}}
+                             "clears": 100, "reevaluations": 500, "bulk_dropped": 2000, "rule_pairs_compared": 300,
+                             "rule_pairs_with_answers": 100}}
 
 
 def setup(ctx):
@@ -57,6 +59,10 @@ def gen(rng, tier, ctx):
             steps.append(["relate", rng.choice(["works_for", "member_of", "members", "sub_org_of"]), rng.randrange(1000), rng.randrange(1000)])
         elif op in ("q_new", "q_build", "q_build_attr"):
             steps.append([op, rng.choice(["Person", "Employee", "Manager", "Org", "Dept", "Chief", "Volunteer", "WorkingStudent", "VOrg", "VPerson"])])
+        elif op == "q_rule":
+            steps.append([op, rng.choice(["Person", "Org", "Employee", "Dept"]), rng.choice(["Person", "Org", "Employee", "Dept", "Volunteer"])])
+        elif op == "q_rule_eval":
+            steps.append([op, rng.randrange(1000)])
         elif op == "q_eval":
             steps.append(["q_eval", rng.randrange(1000)])
         else:
@@ -81,6 +87,8 @@ def gen(rng, tier, ctx):
 def witnesses():
     return {"diamond-subclass-listed-twice": {"steps": [["create", "WorkingStudent"], ["create", "Employee"], ["q_new", "Person"],
                                                         ["q_new", "Volunteer"]]},
+            "late-branch-variable-keeps-first-domain": {"steps": [
+        ["create", "Person"], ["create", "Org"], ["q_rule", "Person", "Org"], ["q_rule_eval", 0], ["create", "Org"], ["q_rule_eval", 0]]},
             "domainless-query-reevaluation-stale": {"steps": [
         ["create", "Person"], ["q_build", "Person"], ["q_eval", 0], ["create", "Person"], ["q_eval", 0]]}}
 
@@ -101,6 +109,7 @@ def run(spec, ctx):
     seq = 0
     queries = []           # [query, type name, evaluated_before, census names at first evaluation]
     attr_queries = []      # [query selecting let(T, None).name, type name]
+    rule_pairs = []        # [rule written in one go, the same rule extended after a first evaluation, type names]
     problems = []
     known = None
     state = {"dead_seen": 0, "reclaimed_before_query": False}
@@ -289,7 +298,55 @@ def run(spec, ctx):
                 if not ent[2]:
                     ent[2], ent[3] = True, now
                 shape.append("e")
+        elif op == "q_rule":
+            # a rule query whose second branch (over another domain-less variable) is written after the base rule has been
+            # evaluated once - the ripple-down workflow - next to the same rule written in one go
+            from krrood.entity_query_language.entity import inference
+            from krrood.entity_query_language.conclusion import Add
+            from krrood.entity_query_language.rule import alternative
+            from vlib import eqlmodel
+            T1, T2 = om.ALL_CLASSES[step[1]], om.ALL_CLASSES[step[2]]
+
+            def build_rule(evaluate_before_extending):
+                a, b = let(T1, None), let(T2, None)
+                v = inference(eqlmodel.V)()
+                q = an(entity(v, a.name == "<nobody>"))
+                if evaluate_before_extending:
+                    list(q.evaluate())
+                with q:
+                    Add(v, inference(eqlmodel.V)(tag="base", p=a))
+                    with alternative(b.name != "<nobody>"):
+                        Add(v, inference(eqlmodel.V)(tag="alt", p=b))
+                return q
+            try:
+                rule_pairs.append([build_rule(False), build_rule(True), step[1], step[2]])
+            except Exception as e:
+                problems.append(f"rule over {step[1]} / {step[2]}: building raised {type(e).__name__}: {e}")
+                known = "__unexplained__"
+            shape.append("R")
+        elif op == "q_rule_eval":
+            if rule_pairs:
+                reference, extended_later, t1, t2 = rule_pairs[step[1] % len(rule_pairs)]
+                gc.collect()
+                try:
+                    want = Counter(id(r.p) for r in reference.evaluate())
+                    got = Counter(id(r.p) for r in extended_later.evaluate())
+                except Exception as e:
+                    problems.append(f"rule over {t1} / {t2}: evaluate raised {type(e).__name__}: {e}")
+                    known = "__unexplained__"
+                    continue
+                C["rule_pairs_compared"] += 1
+                if want:
+                    C["rule_pairs_with_answers"] += 1
+                if set(want) != set(got):
+                    names_of = {id(o): n for n, o in strong.items()}
+                    problems.append(f"rule over {t1} / {t2} whose second branch was written after a first evaluation ranges over "
+                                    f"{sorted(names_of.get(i, '?') for i in got)}, the same rule written in one go over "
+                                    f"{sorted(names_of.get(i, '?') for i in want)}")
+                    known = "__unexplained__"
+                shape.append("V")
         elif op == "forget":
+            rule_pairs.clear()
             # the program drops its query objects and results: the harness also empties krrood's known
             # process-wide query registries (C20's finding), otherwise nothing is ever reclaimed
             queries.clear()
